@@ -1403,7 +1403,34 @@ def stream_usp_pred(ctx, r):
         cases.append(Case(lines, "usp-remove-if"))
     return cases
 
+def stream_settrace(ctx, r):
+    """which url_setter members the hash / search / port / username / password setters invoke, in which order and with
+    which text (Impl/TraceProto.v): the operation sequences of the theorems in Properties_C03_serializer.v, observed on
+    the real url_parser through a logging subclass of url_setter"""
+    urls = list(SER_URLS) + [u for u in START_URLS] + [gens.gen_url(r) for _ in range(scale(ctx, 300, 3000))]
+    vals = {"hash": ["", "#", "x", "#x y", "a#b", "\u00e9", "\t\n", "x\ty", " ", "%41%zz", "\"<>`"],
+            "search": ["", "?", "a=b", "?a b", "??", "'", "\u00e9=\U0001f4a9", "x\ny", "#", "a#b", "\"<>'"],
+            "port": ["", "0", "80", "443", "21", "8080", "65535", "65536", "000080", "0000000000000000443", "81x", "x", "8 1", "\t8\n1", "99999", "1" * 20],
+            "username": ["", "u", "a b", "u:p", "@/:;=", "\u00e9", "%41", "a\tb"],
+            "password": ["", "p", "a b", ":", "@/:;=", "\u00fc", "%zz", "p\nq"]}
+    lines = []
+    for u in urls:
+        for _ in range(2):
+            w = r.choice(["hash", "search", "port", "username", "password"])
+            lines.append("settrace %s %s %s" % (w, tok(u, "b", "s"), tok(r.choice(vals[w]), "b", "s")))
+    for u in SER_URLS:
+        for w in vals:
+            for v in vals[w]:
+                lines.append("settrace %s %s %s" % (w, tok(u, "b", "s"), tok(v, "b", "s")))
+    return [Case(lines[i:i + 500], "settrace") for i in range(0, len(lines), 500)]
+
+def oracle_settrace(cmd, line):
+    if cmd.startswith("settrace") and ("rec=0" in line or "glue=0" in line or "SHRUNK" in line):
+        return "setter-call-sequence:" + ("record" if "rec=0" in line else "glue")
+    return None
+
 STREAMS = {
+    "settrace": (stream_settrace, oracle_settrace),
     "usp_pred": (stream_usp_pred, oracle_state),
     "aliasparse": (stream_aliasparse, oracle_aliasparse),
     "cpset": (stream_cpset, oracle_cpset),
@@ -1437,7 +1464,7 @@ def run(ctx, P):
         r = random.Random(ctx.seed * 1000003 + hash(name) % 1000)
         r = random.Random("%d/%s" % (ctx.seed, name))
         cases = build(ctx, r)
-        for cfg, variant in [(c, v) for c in (["cpp17"] if name == "cpset" else P.get("configs", ["pinned"])) for v in (["spec"] if name in ("serops", "buffer", "cpset", "usp_pred") else P.get("model_variants", ["spec"]))]:
+        for cfg, variant in [(c, v) for c in (["cpp17"] if name == "cpset" else P.get("configs", ["pinned"])) for v in (["spec"] if name in ("serops", "buffer", "cpset", "usp_pred", "settrace") else P.get("model_variants", ["spec"]))]:
             out = corr.compare_stream(ctx, name, cases, cfg, oracle, known, variant=variant, timeout=(40 if name == "cpset" else 900), impl_only=(name == "usp_pred"))
             res["violations"] += out["violations"]
             for k in out["known"]:
